@@ -23,7 +23,7 @@ check("C08", "exploration",
       "bounded exhaustive input enumeration vs exact big-number reference", "DESIGN.md#c08")
 
 check("C07", "exploration",
-      "Every JSON value derivable with at most N scalars+brackets (depth<=3) over a scalar alphabet that contains every number notation the shortener special-cases, strings with escapes and the literals, rendered in 5 whitespace styles, is minified with KeepNumbers off/on; the output must be valid (encoding/json), token-for-token equal under an own raw lexer (strings/literals byte-identical, numbers equal as exact big-number normal forms, byte-identical with KeepNumbers) and never longer.",
+      "Every JSON value derivable with at most N scalars+brackets (depth<=3) over a scalar alphabet that contains every number notation the shortener special-cases, strings with escapes and the literals, rendered in 5 whitespace styles, and every number of the grammar int x fraction x exponent x sign over small digit alphabets (~0.6 M lexemes), is minified with KeepNumbers off/on; the output must be valid (encoding/json), token-for-token equal under an own raw lexer (strings/literals byte-identical, numbers equal as exact big-number normal forms, byte-identical with KeepNumbers) and never longer.",
       "Trusts encoding/json.Valid, the own raw lexer and math/big; texts beyond the size bound are not covered.",
       "bounded exhaustive grammar enumeration vs independent JSON lexer and exact number reference", "DESIGN.md#c07")
 
@@ -33,22 +33,22 @@ check("C15", "model_checking",
       "explicit-state BFS over operation histories with the implementation as transition function and a reference model as oracle", "DESIGN.md#c15", engine="bfs")
 
 check("C18", "exploration",
-      "Every payload of <=2 arbitrary bytes and of <=L symbols over a structural alphabet, encoded four valid ways, under 19 media-type headers and four registries (none, real css+svg, stubs, failing stubs) goes through DataURI; an own RFC 2397 decoder must recover the same media type (up to case/whitespace/defaults) and exactly the payload the registry produces; encoding validity, shorter-encoding choice and the never-longer clause are checked. Mediatype is compared with a 10-line reference on every sequence of <=5/7 tokens.",
+      "Every payload of <=2 arbitrary bytes and of <=L symbols over a structural alphabet, encoded five ways (four valid ones and the common sloppy form with printable characters left raw), under 19 media-type headers and four registries (none, real css+svg, stubs, failing stubs) goes through DataURI; an own RFC 2397 decoder must recover the same media type (up to case/whitespace/defaults) and exactly the payload the registry produces; encoding validity, shorter-encoding choice and the never-longer clause are checked; every call is made on a slice with cap==len (guard bytes) and on one with spare capacity (the dependency then works in place in the caller's buffer). Mediatype is compared with a 10-line reference on every sequence of <=5/7 tokens and on every single byte and 576 byte pairs in three contexts.",
       "Trusts the own RFC 2397 decoder and RFC 3986 character classes; 'validly encoded' for the never-longer clause means base64 or every character escaped that RFC 3986 forbids plus '&'.",
       "bounded exhaustive input enumeration vs independent decoder", "DESIGN.md#c18")
 
 check("C12", "model_checking",
-      "The real wrapper code of minify.go (Writer, Reader, ResponseWriter, Middleware, MiddlewareWithError) is rebuilt from the current tree with sync.RWMutex/WaitGroup/io.Pipe/go routed through a cooperative scheduler (go build -overlay; /repo untouched). For every partition of short inputs of each media type into chunks, every interleaving of producer, minifier goroutine and consumer at every synchronisation operation is explored (preemption bound 3 in quick, unbounded in thorough, cut at visited global states) and compared with the plain sequential call: bytes, error, 'everything delivered at the instant Close returns', Content-Length removal and minifier selection. The io.Pipe model is validated against the real io.Pipe by exhaustive model exploration vs free runs.",
+      "The real wrapper code of minify.go (Writer, Reader, ResponseWriter, Middleware, MiddlewareWithError) is rebuilt from the current tree with sync.RWMutex/WaitGroup/io.Pipe/go routed through a cooperative scheduler (go build -overlay; /repo untouched). For every partition of short inputs of each media type into chunks, and for a 20 kB stylesheet cut at every ordered pair of lengths around the usual buffer sizes (1..8192), every interleaving of producer, minifier goroutine and consumer at every synchronisation operation is explored (preemption bound 3 in quick, unbounded in thorough, cut at visited global states) and compared with the plain sequential call: bytes, error, 'everything delivered at the instant Close returns', Content-Length removal and minifier selection. The io.Pipe model is validated against the real io.Pipe by exhaustive model exploration vs free runs.",
       "Preemption happens only at hooked operations (before and after each); the pipe is a model kept bound to io.Pipe by the conformance run; inputs longer than the bound are cut into <=3 pieces only.",
       "stateless schedule exploration (controlled scheduler, DFS with prefix replay, state-key pruning) of the implementation + model/implementation conformance for io.Pipe", "DESIGN.md#c12", engine="vsched")
 
 check("C13", "model_checking",
-      "N=2 (thorough: N=3) concurrent calls from an 11-call alphabet (Minify/Bytes/String/Reader/Writer/Match on all media types, documents whose embedded content re-enters the registry, shared non-default option structs) and a 5-call alphabet on the package-level minify.Default are explored under the controlled scheduler on the real minify.go: every multiset, every interleaving at every lock/pipe/WaitGroup/go operation up to the preemption bound. Oracle: each call returns its sequential result, no deadlock, no call ever finds a lock held by another call, option structs unchanged. Sampling companions reported separately: free-running -race pass of the same bodies, history independence over all ordered pairs of corpus documents, cross-process output digest at GOMAXPROCS 1/4/16.",
+      "N=2 (thorough: N=3) concurrent calls from an 11-call alphabet (Minify/Bytes/String/Reader/Writer/Match on all media types, documents whose embedded content re-enters the registry, shared non-default option structs) and a 5-call alphabet on the package-level minify.Default are explored under the controlled scheduler on the real minify.go: every multiset, every interleaving at every lock/pipe/WaitGroup/go operation up to the preemption bound. Oracle: each call returns its sequential result, no deadlock, no call ever finds a lock held by another call, option structs unchanged. Deterministic companion: every call alone on a fresh shared registry (non-default and zero options) must leave a deep snapshot of all registered option structs, unexported fields included, unchanged (a scratch buffer or lazily built table kept on a shared struct is shared state). Sampling companions reported separately: free-running -race pass of the same bodies on three registries, history independence over all ordered pairs of corpus documents, cross-process output digest at GOMAXPROCS 1/4/16.",
       "The cooperative scheduler sees interference only across hooked operations; unsynchronised windows are covered by the -race companion (sampling). Map iteration order is sampled by repeated processes.",
       "stateless schedule exploration of the implementation (controlled scheduler, preemption-bounded DFS, state-key pruning) + free-running race-detector companion", "DESIGN.md#c13", engine="vsched")
 
 check("C14", "fault_enumeration",
-      "For every corpus document of every media type (incl. embedded content and documents that fail late) and the entry points direct Minify and M.Minify: the reader fails after k bytes for every k in 0..len (three read granularities, error alone or with the last bytes), the writer fails from its k-th call on for every k in 1..calls+1 (zero or short count), and both together; the call must return a non-nil error that is the injected one. Through Reader, Writer, ResponseWriter and MiddlewareWithError the same faults are explored under the controlled scheduler over all interleavings: the error must reach the consumer / Write / Close, Close must return, no deadlock.",
+      "For every corpus document of every media type (incl. embedded content and documents that fail late) and the entry points direct Minify and M.Minify: the reader fails after k bytes for every k in 0..len (three read granularities, error alone or with the last bytes), the writer fails from its k-th call on for every k in 1..calls+1 (zero or short count), and both together, with three error identities (plain, wrapping io.EOF, wrapping another io error); every proper prefix of every valid document is used as a document of its own with the writer failing at every k; the call must return a non-nil error that is the injected one. Through Reader, Writer, ResponseWriter and MiddlewareWithError the same faults are explored under the controlled scheduler over all interleavings: the error must reach the consumer / Write / Close, Close must return, no deadlock.",
       "A failing writer keeps failing; documents whose minification fails by itself may return their own error instead of the writer's.",
       "exhaustive fault-position enumeration + schedule exploration of the wrappers", "DESIGN.md#c14", engine="vsched")
 
@@ -88,7 +88,7 @@ check("C04", "exploration",
       "bounded exhaustive stylesheet enumeration vs independent CSS value interpreter", "DESIGN.md#c04")
 
 check("C02", "exploration",
-      "Scope shapes are enumerated exhaustively: every chain of <=2 (thorough <=3) nested scopes over 12 scope kinds x 9 declaration kinds x 4 naming schemes (distinct, shadowing, names equal to the renamer's first picks, with globals of those names in use); every declaration carries its own constant, every use site logs the value it resolves to before and after the inner scope and closures are called at the end, so a capture or collision changes the log or throws. Free-variable families put globals named like the first 32 generated names next to 1..12 locals; one scope with N bindings for N up to 3700 (all N in thorough) drives name generation through every one- and two-letter name incl. keywords, with two-letter globals in use. Programs run in V8 for KeepVarNames off/on. Static clauses with acorn: output parses in sloppy and strict mode, labels/top-level declarations/import and export names/property names unchanged, no new identifier with KeepVarNames, `with` functions untouched (observed by execution).",
+      "Scope shapes are enumerated exhaustively: every chain of <=2 (thorough <=3) nested scopes over 12 scope kinds x 9 declaration kinds x 4 naming schemes (distinct, shadowing, names equal to the renamer's first picks, with globals of those names in use); every declaration carries its own constant, every use site logs the value it resolves to before and after the inner scope and closures are called at the end, so a capture or collision changes the log or throws. A var-hoisting family (0-3 function-level var statements x 10 block shapes x let/const x 1-3 declarators x every subset of outer names used in the block) targets the merged declaration. Free-variable families put globals named like the first 32 generated names next to 1..12 locals; one scope with N bindings for N up to 3700 (all N in thorough) drives name generation through every one- and two-letter name incl. keywords, with two-letter globals in use. Programs run in V8 for KeepVarNames off/on. Static clauses with acorn: output parses in sloppy and strict mode, labels/top-level declarations/import and export names/property names unchanged, no new identifier with KeepVarNames, `with` functions untouched (observed by execution).",
       "V8 and acorn from node 20 are the trusted engine and parser; scope trees deeper than the bound and direct eval are outside.",
       "bounded exhaustive scope-shape enumeration with instrumented bindings executed on an independent engine + independent parser for static clauses", "DESIGN.md#c02", engine="jsrun")
 
@@ -108,9 +108,9 @@ check("C11", "exploration",
       "exhaustive product of hosts x payloads x registries with recording stubs, checked by independent decoding", "DESIGN.md#c11")
 
 check("C09", "exploration",
-      "Every file of tests/*/corpus and _benchmarks (six media types) and its complete one-edit neighbourhood (every one-byte deletion, every replacement by each of 14 structural bytes) up to a size bound, plus splices of all ordered pairs of small files, goes through the default and an all-non-default registry. Whenever the minifier accepts the input, the output must be valid by an independent parser (acorn for JS including scripts inside HTML, encoding/json, own XML reader and strict SVG path parser, own CSS tokenizer, HTML raw-text boundaries) and must be accepted again by the minifier.",
+      "Every file of tests/*/corpus and _benchmarks (six media types) and its complete one-edit neighbourhood (every one-byte deletion, every replacement by each of 14 structural bytes) up to a size bound, plus splices of all ordered pairs of small files, plus every program of the C01 grammar families (stand-alone and, for the literal family, inside an HTML script element) goes through the default and an all-non-default registry (JavaScript registered by the CLI's media type pattern). Whenever the minifier accepts the input, the output must be valid by an independent parser (acorn for JS including scripts inside HTML, encoding/json, own XML reader and strict SVG path parser, own CSS tokenizer, HTML raw-text boundaries) and must be accepted again by the minifier.",
       "Validity is decided by acorn 8.16, encoding/json and the readers of /verif; inputs outside the one-edit neighbourhood of the bundled files are not covered.",
-      "bounded exhaustive enumeration of the one-edit neighbourhood of the bundled corpora vs independent parsers", "DESIGN.md#c09", engine="jsrun")
+      "bounded exhaustive enumeration of the one-edit neighbourhood of the bundled corpora and of generated programs vs independent parsers", "DESIGN.md#c09", engine="jsrun")
 
 check("C16", "exploration",
       "HTML: all 128 combinations of the seven Keep* options x 4 template-delimiter sets x a document family; each kept construct (end tags, document tags, attribute names, quotes, comments, special comments, white space next to tags, template spans) is read off the x/net/html token stream of input and output. JS: versions 0, 5 and 2015..2022 x inputs using or inviting each gated syntax; acorn reports the least ECMAScript version that parses the output, which may exceed Version only if the input's did. Numbers: a lexeme family x precisions 0..17 x seven hosts (css, css KeepCSS2, svg attribute, svg path, svg style, json, json KeepNumbers) against a math/big tolerance. CLI: every option flag produces byte-identical output to the library field it maps to.",
